@@ -1,7 +1,7 @@
 """C06 - Every stochastic trajectory is a feasible reaction path."""
 import os
 CONTRACT_MODULES = ['simulator_safe', 'simulator_interfaces', 'types_propensities', 'random_', 'simulator_ssa', 'simulator_delay',
-                    'simulator_volume', 'simulator_queue']
+                    'simulator_volume', 'simulator_delayvolume', 'simulator_queue']
 SPEC_MODULES = ['functions', 'lemmas_lattice', 'lemmas_prob']
 LEVEL = 'proof'
 ASSUMPTIONS = [
@@ -10,11 +10,11 @@ ASSUMPTIONS = [
     'integer stoichiometry; doubles as reals',
 ]
 TRUSTED = []
-EXPLANATION = ('Step relations of the SSA, delay and volume simulators (state changes only by a column of U+D, or of D at delivery); safe interface: table view of consumed '
+EXPLANATION = ('Step relations of the SSA, delay, volume and delay+volume simulators (state changes only by a column of U+D, or of D at delivery); safe interface: table view of consumed '
                'species, sentinel inside the allocated row, propensity > 0 implies every consumed species is present in the needed amount (all propensity types); '
                'lemmas: lattice step, lin-update induction, falling-factorial positivity, conservation step.')
 LEVEL_TEXT = 'Deductive proof of the per-step facts on the real loop bodies and of the safe-interface guard for any network; trajectory-level corollaries by (stated) induction.'
-LEVEL_NOTE = 'See assumptions; delay-volume simulator not under contract (unreachable from the entry point, see C07).'
+LEVEL_NOTE = 'See assumptions; the delay+volume simulator is under contract as well (contracts/simulator_delayvolume.py).'
 _HERE = os.path.dirname(os.path.dirname(os.path.abspath(__file__)))
 
 
